@@ -691,3 +691,45 @@ pub fn stream_kat(out: &mut impl Write, corpus: &str) {
         }
     }
 }
+
+// ---------------------------------------------------------------------------
+// real multi-GiB streams (thorough tier, C11): total sizes around MAX and 2^32
+// ---------------------------------------------------------------------------
+
+/// `huge <vi> <n> => <processed_len> toolarge=<0|1> lvalue=<code|->`
+/// feeds `n` bytes of a periodic pattern in pieces of 1 MiB + 1.
+pub fn stream_huge(out: &mut impl Write, which: usize) {
+    let sizes: [u64; 6] = [4_224_281_215, 4_224_281_216, 4_224_281_217, (1u64 << 32) - 1, 1u64 << 32, (1u64 << 32) + 5];
+    let piece: Vec<u8> = (0..(1usize << 20) + 1).map(|i| (i % 251) as u8 ^ ((i >> 9) as u8)).collect();
+    let sel: Vec<(usize, u64)> = sizes.iter().enumerate().map(|(i, &n)| ([1usize, 0, 3, 1, 0, 3][i], n)).collect();
+    let handles: Vec<_> = sel
+        .into_iter()
+        .enumerate()
+        .filter(|(i, _)| which == 0 || *i < which)
+        .map(|(_, (vi, n))| {
+            let piece = piece.clone();
+            std::thread::spawn(move || {
+                with_variant!(vi, T => {
+                    let mut g = Generator::<T>::new();
+                    let mut left = n;
+                    while left > 0 {
+                        let k = (piece.len() as u64).min(left) as usize;
+                        g.update(&piece[..k]);
+                        left -= k as u64;
+                    }
+                    let plen = len_str(g.processed_len());
+                    let r = g.finalize_with_options(&options_from_bits(28));
+                    let (tl, lv) = match &r {
+                        Err(tlsh::GeneratorError::TooLargeInput) => (1, "-".to_string()),
+                        Ok(h) => (0, h.length().value().to_string()),
+                        Err(_) => (0, "err".to_string()),
+                    };
+                    format!("huge {} {} => {} toolarge={} lvalue={}", vi, n, plen, tl, lv)
+                })
+            })
+        })
+        .collect();
+    for h in handles {
+        writeln!(out, "{}", h.join().unwrap()).unwrap();
+    }
+}
